@@ -255,29 +255,36 @@ func rulesC11(c *Ctx) {
 
 	// ---- R3
 	const derive = "hdkeychain.(*ExtendedKey).Derive"
-	deriveArgs := func(f *ssa.Function) []string {
-		o := c.P.OriginsOf(f)
-		var out []string
-		for _, ci := range c.callsNamed(f, derive) {
-			out = append(out, o.Of(c.P.Describe(ci).Args[0]).String())
+	// The derivation functions are read off the provenance of what they return on success: a chain of
+	// standard BIP-32 Derive calls from the key parameter with constant-folded indices (the same whether the
+	// steps are written inline, passed on with `return f()`, or moved into a helper that is new on this tree).
+	chain := func(root string, idx ...string) string {
+		s := root
+		for _, i := range idx {
+			s = derive + "#0(" + s + ", " + i + ")"
 		}
-		return out
+		return s
 	}
-	nonStd := func(f *ssa.Function) bool {
-		for _, ci := range Calls(f) {
-			if strings.Contains(c.P.Describe(ci).Name, "DeriveNonStandard") || strings.Contains(c.P.Describe(ci).Name, ").Child") {
-				return true
+	returned := func(f *ssa.Function) (string, bool) {
+		o := c.P.OriginsOf(f)
+		rs := o.SuccessReturns()
+		got := ""
+		for _, r := range rs {
+			e := o.Of(r.Results[0]).String()
+			if got != "" && e != got {
+				return got + " | " + e, false
 			}
+			got = e
 		}
-		return false
+		return got, len(rs) > 0
 	}
 	if f := c.fn("R3", "cashu/nuts/nut13.DeriveKeysetPath"); f != nil {
-		a := deriveArgs(f)
 		id := "P:" + f.Params[1].Name()
 		want3 := "(#2147483648 + uint32((encoding/binary.(bigEndian).Uint64(G:encoding/binary.BigEndian, " + fnHexDecode + "#0(" + id + ")) % #2147483647)))"
-		ok := len(a) == 3 && a[0] == "#2147613020" && a[1] == "#2147483648" && a[2] == want3 && !nonStd(f)
+		got, one := returned(f)
+		ok := one && got == chain("P:"+f.Params[0].Name(), "#2147613020", "#2147483648", want3)
 		R.Check("R3", c.P.FuncKey(f), "m/129372'/0'/(big-endian uint64 of the id mod 2^31-1)'", c.P.Pos(f.Pos()), ok,
-			"the keyset path is purpose 129372', coin type 0', then the hardened keyset index derived from the hex-decoded id", strings.Join(a, " , "))
+			"the keyset path is purpose 129372', coin type 0', then the hardened keyset index derived from the hex-decoded id", short(got, 300))
 	}
 	for _, v := range []struct {
 		key, leaf, what string
@@ -286,22 +293,15 @@ func rulesC11(c *Ctx) {
 		if f == nil {
 			continue
 		}
-		a := deriveArgs(f)
 		counter := "P:" + f.Params[1].Name()
-		ok := len(a) == 2 && a[0] == "(#2147483648 + "+counter+")" && a[1] == v.leaf && !nonStd(f)
-		R.Check("R3", c.P.FuncKey(f), "counter' then leaf "+strings.TrimPrefix(v.leaf, "#"), c.P.Pos(f.Pos()), ok, "the "+v.what+" is at <keyset path>/counter'/"+strings.TrimPrefix(v.leaf, "#")+" with standard BIP-32 derivation", strings.Join(a, " , "))
-		o := c.P.OriginsOf(f)
-		okKey := false
-		for _, r := range o.SuccessReturns() {
-			e := o.Of(r.Results[0])
-			s := e.String()
-			if v.leaf == "#0" {
-				okKey = isCall(e, fnHexEncode) && strings.Contains(s, ".Serialize(") && strings.Contains(s, "ECPrivKey#0(")
-			} else {
-				okKey = strings.Contains(s, "ECPrivKey#0(")
-			}
+		key := "hdkeychain.(*ExtendedKey).ECPrivKey#0(" + chain("P:"+f.Params[0].Name(), "(#2147483648 + "+counter+")", v.leaf) + ")"
+		want := key
+		if v.leaf == "#0" {
+			want = fnHexEncode + "(secp256k1.(PrivateKey).Serialize(" + key + "))"
 		}
-		R.Check("R3", c.P.FuncKey(f), v.what+" is the derived private key", c.P.Pos(f.Pos()), okKey, "the "+v.what+" is the private key at that path (hex of its 32 bytes for the secret)", "")
+		got, one := returned(f)
+		R.Check("R3", c.P.FuncKey(f), "counter' then leaf "+strings.TrimPrefix(v.leaf, "#"), c.P.Pos(f.Pos()), one && got == want, "the "+v.what+" is at <keyset path>/counter'/"+strings.TrimPrefix(v.leaf, "#")+" with standard BIP-32 derivation", short(got, 300))
+		R.Check("R3", c.P.FuncKey(f), v.what+" is the derived private key", c.P.Pos(f.Pos()), one && got == want, "the "+v.what+" is the private key at that path (hex of its 32 bytes for the secret)", "")
 	}
 	// the wallet derives secret and r from the same counter and path
 	if f := c.fn("R3", "wallet.generateDeterministicSecret"); f != nil {
@@ -323,13 +323,13 @@ func rulesC11(c *Ctx) {
 
 	// ---- R4, R5
 	if f := c.fn("R4", "crypto.DeriveKeysetPath"); f != nil {
-		a := deriveArgs(f)
-		ok := len(a) == 3 && a[0] == "#2147483648" && a[1] == "#2147483648" && a[2] == "(#2147483648 + P:"+f.Params[1].Name()+")" && !nonStd(f)
-		R.Check("R4", c.P.FuncKey(f), "m/0'/0'/index'", c.P.Pos(f.Pos()), ok, "the mint's keyset path is 0'/0'/index'", strings.Join(a, " , "))
+		got, one := returned(f)
+		ok := one && got == chain("P:"+f.Params[0].Name(), "#2147483648", "#2147483648", "(#2147483648 + P:"+f.Params[1].Name()+")")
+		R.Check("R4", c.P.FuncKey(f), "m/0'/0'/index'", c.P.Pos(f.Pos()), ok, "the mint's keyset path is 0'/0'/index'", short(got, 300))
 	}
 	if f := c.fn("R5", "wallet.DeriveP2PK"); f != nil {
-		a := deriveArgs(f)
-		ok := len(a) == 4 && a[0] == "#2147613020" && a[1] == "#2147483648" && a[2] == "#2147483649" && a[3] == "#0" && !nonStd(f)
-		R.Check("R5", c.P.FuncKey(f), "m/129372'/0'/1'/0", c.P.Pos(f.Pos()), ok, "the wallet's P2PK key path is 129372'/0'/1'/0", strings.Join(a, " , "))
+		got, one := returned(f)
+		ok := one && got == "hdkeychain.(*ExtendedKey).ECPrivKey#0("+chain("P:"+f.Params[0].Name(), "#2147613020", "#2147483648", "#2147483649", "#0")+")"
+		R.Check("R5", c.P.FuncKey(f), "m/129372'/0'/1'/0", c.P.Pos(f.Pos()), ok, "the wallet's P2PK key path is 129372'/0'/1'/0", short(got, 300))
 	}
 }
